@@ -1,6 +1,8 @@
 package gvc
 
 import (
+	"context"
+	"syscall"
 	"encoding/json"
 	"flag"
 	"fmt"
@@ -249,17 +251,13 @@ func CmdCheck(args []string) int {
 	}
 	var fails []failure
 	var vacuity []string
+	var contractErrs []*Result
 	for _, r := range results {
 		if r.Err != nil {
-			rp := filepath.Join(replayDir, sanitize(*prop+"_"+r.Block.Name+"_error")+".json")
-			writeJSON(rp, map[string]interface{}{"property": *prop, "function": r.Block.Name, "error": r.Err.Error(),
-				"meaning": "the contract of this function can no longer be checked against the code (engine/contract error); its obligations are not discharged"})
-			if f := matchFinding(findings, *prop, r.Block.Name+"/error"); f != nil {
-				say(fmt.Sprintf("KNOWN-FINDING: property=%s %s (%s)", *prop, f.What, f.ID))
-			} else {
-				say(fmt.Sprintf("VIOLATION property=%s replay=%s no-failing-input-found (%s: %v)", *prop, rp, r.Block.Name, firstLine(r.Err.Error())))
-				violations++
-			}
+			// the contract no longer matches the shape of the code (renamed
+			// local, moved loop, changed type ...): its obligations are
+			// undecided.  Decided below, after the bounded stand-in has run.
+			contractErrs = append(contractErrs, r)
 		}
 		for _, n := range r.Notes {
 			notes[r.Block.Name+": "+n] = true
@@ -360,8 +358,31 @@ func CmdCheck(args []string) int {
 
 	// ---- bounded stand-in
 	var bounded map[string]interface{}
+	violBefore := violations
 	if !*noBounded {
 		bounded = runBounded(*prop, *tier, seed, *repo, findings, say, &violations, replayDir)
+	}
+	// contracts that could not be evaluated against the current code: an
+	// undecided proof is not a violation by itself.  If the property has a
+	// bounded stand-in and it found nothing, the function is reported as
+	// STALE-CONTRACT (recorded in the evidence, exit status unaffected);
+	// without that second opinion the undecided contract is reported.
+	for _, r := range contractErrs {
+		rp := filepath.Join(replayDir, sanitize(*prop+"_"+r.Block.Name+"_error")+".json")
+		writeJSON(rp, map[string]interface{}{"property": *prop, "function": r.Block.Name, "error": r.Err.Error(), "obligation": r.Block.Name + "/contract",
+			"meaning": "the contract of this function can no longer be evaluated against the code; its obligations are undecided"})
+		boundedClean := bounded != nil && bounded["error"] == nil && violations == violBefore
+		switch {
+		case matchFinding(findings, *prop, r.Block.Name+"/error") != nil:
+			f := matchFinding(findings, *prop, r.Block.Name+"/error")
+			say(fmt.Sprintf("KNOWN-FINDING: property=%s %s (%s)", *prop, f.What, f.ID))
+		case boundedClean:
+			stale = append(stale, r.Block.Name)
+			say(fmt.Sprintf("STALE-CONTRACT property=%s %s: %s (undecided; the bounded stand-in of the property found no violation)", *prop, r.Block.Name, firstLine(r.Err.Error())))
+		default:
+			say(fmt.Sprintf("VIOLATION property=%s replay=%s no-failing-input-found (%s: %v)", *prop, rp, r.Block.Name, firstLine(r.Err.Error())))
+			violations++
+		}
 	}
 
 	if *updateLedger {
@@ -512,9 +533,28 @@ func runBounded(prop, tier string, seed int, repo string, findings []Finding, sa
 	out := filepath.Join(VerifDir, ".cache", "bounded_"+prop+".json")
 	os.MkdirAll(filepath.Dir(out), 0o755)
 	os.Remove(out)
-	cmd := exec.Command(filepath.Join(dir, "run.sh"), prop, tier, strconv.Itoa(seed), repo, out)
+	// the stand-in finishes in about a minute on the unchanged tree; a run
+	// that needs many times longer (workers hanging or crashing over and
+	// over) is cut off and reported
+	limit := 8 * time.Minute
+	if tier == "thorough" {
+		limit = 90 * time.Minute
+	}
+	ctx, cancel := context.WithTimeout(context.Background(), limit)
+	defer cancel()
+	cmd := exec.CommandContext(ctx, filepath.Join(dir, "run.sh"), prop, tier, strconv.Itoa(seed), repo, out)
 	cmd.Dir = dir
+	cmd.SysProcAttr = &syscall.SysProcAttr{Setpgid: true}
+	cmd.Cancel = func() error { return syscall.Kill(-cmd.Process.Pid, syscall.SIGKILL) }
 	b, err := cmd.CombinedOutput()
+	if ctx.Err() != nil {
+		rp := filepath.Join(replayDir, prop+"_bounded_timeout.json")
+		writeJSON(rp, map[string]interface{}{"property": prop, "key": prop + "/stand-in-timeout", "limit": limit.String(), "output": trunc(string(b), 4000),
+			"meaning": "the bounded stand-in did not finish within its time limit on this tree (on the unchanged tree it takes about a minute): evaluations hang or crash repeatedly"})
+		say(fmt.Sprintf("VIOLATION property=%s replay=%s no-failing-input-found (bounded stand-in exceeded %v)", prop, rp, limit))
+		*violations++
+		return map[string]interface{}{"error": "timeout after " + limit.String()}
+	}
 	res := map[string]interface{}{}
 	jb, rerr := os.ReadFile(out)
 	if rerr != nil || json.Unmarshal(jb, &res) != nil {
